@@ -345,8 +345,8 @@ impl CheckImpl for C20 {
     }
     fn units(&self, tier: Tier, _seed: u64) -> u64 {
         match tier {
-            Tier::Quick => 4000 / BATCH,
-            Tier::Thorough => 200_000 / BATCH,
+            Tier::Quick => 16_000 / BATCH,
+            Tier::Thorough => 400_000 / BATCH,
         }
     }
     fn run_unit(&mut self, tier: Tier, seed: u64, unit: u64, acc: &mut Acc, viols: &mut Vec<Viol>) {
